@@ -23,6 +23,8 @@ def run(ctx):
     F.rule_b1(ctx)
     n1(ctx, ["geometry_tools/automata/fsa.py", "geometry_tools/automata/kbmag_utils.py"])
     CA.rule_c2(ctx, "FSA")
+    F.rule_v1p(ctx)
+    F.rule_rf1(ctx)
     u1(ctx, ENTRIES, min_functions=25)
     ctx.r.assume("set-based model equality over histories and the GAP "
                  "parser's string semantics are not decided (numerical / "
